@@ -107,7 +107,8 @@ def generate(seed: int, tier: str) -> dict:
     case = {"prop": "C07", "engine": "damage", "seed": seed, "tier": tier, "doc": doc, "pre_ops": pre_ops, "mode": mode,
             "wrap": None, "faults": None, "value_faults": rng.random() < 0.3}
     if rng.random() < 0.3:
-        case["wrap"] = {"kind": "wrap", "lead": rng.choice(["", "\n", "\n\n", "  ", "\t\n "]), "trail": rng.choice(["", " ", "\n\n", "  \n", "\t"])}
+        # (a byte-order mark or a non-ASCII comment in front: byte offsets and character offsets differ from there on)
+        case["wrap"] = {"kind": "wrap", "lead": rng.choice(["", "\n", "\n\n", "  ", "\t\n ", "\ufeff", "\ufeff\n", "# é☃\n"]), "trail": rng.choice(["", " ", "\n\n", "  \n", "\t"])}
     return case
 
 
